@@ -5,3 +5,5 @@ import Modbus.Props.C01
 #print axioms Modbus.C01.req_pdu_roundtrip
 #print axioms Modbus.C01.req_never_other
 #print axioms Modbus.C01.req_high_custom_refused
+#print axioms Modbus.C01.req_decode_image_exact
+#print axioms Modbus.C01.req_roundtrip_exact
